@@ -648,15 +648,30 @@ impl<R: Read + Seek> LogIterator<R> {
     /// Return the next item in the log, or None when the log has been traversed.
     #[allow(clippy::should_implement_trait)]
     pub fn next(&mut self) -> Result<Option<KeyValueRef<'_>>, SError> {
-        if self.buffer_idx < self.buffer.len() {
-            return self.next_from_buffer();
+        if self.buffer_idx >= self.buffer.len() {
+            self.buffer_idx = 0;
+            self.buffer.clear();
+            match self.next_batch() {
+                Ok(true) => {}
+                Ok(false) => {
+                    return Ok(None);
+                }
+                Err(err) => {
+                    // NOTE:  Whatever was read of a batch that failed must not be handed out by
+                    // a later call.
+                    self.buffer.clear();
+                    return Err(err);
+                }
+            }
         }
-        self.buffer_idx = 0;
-        self.buffer.clear();
+        self.next_from_buffer()
+    }
+
+    fn next_batch(&mut self) -> Result<bool, SError> {
         let header = match self.next_frame()? {
             Some(header) => header,
             None => {
-                return Ok(None);
+                return Ok(false);
             }
         };
         if header.discriminant == HEADER_WHOLE {
@@ -683,17 +698,25 @@ impl<R: Read + Seek> LogIterator<R> {
                 self.input.stream_position().unwrap_or(0),
             ));
         }
-        self.next_from_buffer()
+        Ok(true)
     }
 
     fn next_from_buffer(&mut self) -> Result<Option<KeyValueRef<'_>>, SError> {
         if self.buffer_idx >= self.buffer.len() {
             return Err(empty_batch());
         }
-        let (kve, rem) = <KeyValueEntry as Unpackable>::unpack(&self.buffer[self.buffer_idx..])
-            .map_err(unpack_key_value_entry_prototk)?;
+        let (kve, rem) =
+            match <KeyValueEntry as Unpackable>::unpack(&self.buffer[self.buffer_idx..]) {
+                Ok(unpacked) => unpacked,
+                Err(err) => {
+                    // NOTE:  An error abandons the rest of the batch.
+                    self.buffer_idx = self.buffer.len();
+                    return Err(unpack_key_value_entry_prototk(err));
+                }
+            };
         self.buffer_idx = self.buffer.len() - rem.len();
         if kve.shared() != 0 {
+            self.buffer_idx = self.buffer.len();
             return Err(corruption_shared_not_zero());
         }
         Ok(Some(KeyValueRef {
